@@ -461,6 +461,47 @@ class Gen:
         body_mask = src.mask[ob:e] if ob is not None else None
         attrs = filter_attr_lines([x for x in attr_text.split("\n") if x.strip()], self.log)
         # --- parse the contract block
+        contract, loops, injects, rewrites = self._parse_block(block, rel_tpl)
+        # --- signature: name the result
+        sig_out = sig
+        if binder:
+            sig_out = self._bind_result(sig, sig_mask, binder, name, rel)
+        if make_pub and not re.match(r"\s*pub\b", sig_out):
+            sig_out = re.sub(r"^(\s*)", r"\1pub ", sig_out, count=1)
+            self.log.append(f"note: visibility of {rel}::{name} widened to pub (module layout of the generated crate)")
+        if rename:
+            sig_out = re.sub(r"\bfn\s+" + re.escape(name) + r"\b", "fn " + rename, sig_out, count=1)
+        # R4: `_` parameters
+        def r4(mo):
+            self.log.append(f"R4 rename `_` parameter in {rel}::{name}")
+            return mo.group(1) + "_unused_param" + mo.group(2)
+        sig_out = re.sub(r"([(,]\s*)_(\s*:)", r4, sig_out)
+        gen_start = len(self.out.lines) + 1
+        fnname = name if not rename else rename
+        o = self.out
+        if stub and body is not None:
+            o.emit("#[verifier::external_body]", None, tags, fnname)
+        elif nodec:
+            o.emit("#[verifier::exec_allows_no_decreases_clause]", None, tags, fnname)
+        for a in attrs:
+            o.emit(a, None, tags, fnname)
+        o.emit(sig_out.rstrip(), ("repo", src.rel, line_of(src.text, sig_start_line)), tags, fnname)
+        for (tl, tx) in contract:
+            o.emit(tx, ("tpl", rel_tpl, tl), self._clause_tags(tx, tags), fnname)
+        if body is None:
+            o.emit(";", None, tags, fnname)
+        elif stub:
+            o.emit("{ unimplemented!() }", None, tags, fnname)
+            self.stubs.append(f"{rel}::{name}")
+        else:
+            self._emit_body(src, ob, body, body_mask, loops, injects, rewrites, rel_tpl, tags, fnname, rel, name)
+        self.functions.append(dict(kind="fn", name=fnname, file=src.rel, lines=[l0, line_of(src.text, e - 1)], sha=sha,
+                                   tags=tags, stub=bool(stub and body is not None), nodec=nodec,
+                                   gen_start=gen_start, gen_end=len(self.out.lines),
+                                   has_contract=any(t.strip() for _, t in contract)))
+
+    def _parse_block(self, block, rel_tpl):
+        """contract lines and the sub-directives (loop / inject / rewrite*) of a //@ fn or //@ seg block"""
         contract, loops, injects, rewrites = [], {}, [], []
         cur = ("contract", None)
         for (tl, tx) in block:
@@ -513,43 +554,8 @@ class Gen:
                 loops[cur[1]].append((tl, tx))
             elif cur[0] == "inject":
                 injects[cur[1]]["text"].append((tl, tx))
-        # --- signature: name the result
-        sig_out = sig
-        if binder:
-            sig_out = self._bind_result(sig, sig_mask, binder, name, rel)
-        if make_pub and not re.match(r"\s*pub\b", sig_out):
-            sig_out = re.sub(r"^(\s*)", r"\1pub ", sig_out, count=1)
-            self.log.append(f"note: visibility of {rel}::{name} widened to pub (module layout of the generated crate)")
-        if rename:
-            sig_out = re.sub(r"\bfn\s+" + re.escape(name) + r"\b", "fn " + rename, sig_out, count=1)
-        # R4: `_` parameters
-        def r4(mo):
-            self.log.append(f"R4 rename `_` parameter in {rel}::{name}")
-            return mo.group(1) + "_unused_param" + mo.group(2)
-        sig_out = re.sub(r"([(,]\s*)_(\s*:)", r4, sig_out)
-        gen_start = len(self.out.lines) + 1
-        fnname = name if not rename else rename
-        o = self.out
-        if stub and body is not None:
-            o.emit("#[verifier::external_body]", None, tags, fnname)
-        elif nodec:
-            o.emit("#[verifier::exec_allows_no_decreases_clause]", None, tags, fnname)
-        for a in attrs:
-            o.emit(a, None, tags, fnname)
-        o.emit(sig_out.rstrip(), ("repo", src.rel, line_of(src.text, sig_start_line)), tags, fnname)
-        for (tl, tx) in contract:
-            o.emit(tx, ("tpl", rel_tpl, tl), self._clause_tags(tx, tags), fnname)
-        if body is None:
-            o.emit(";", None, tags, fnname)
-        elif stub:
-            o.emit("{ unimplemented!() }", None, tags, fnname)
-            self.stubs.append(f"{rel}::{name}")
-        else:
-            self._emit_body(src, ob, body, body_mask, loops, injects, rewrites, rel_tpl, tags, fnname, rel, name)
-        self.functions.append(dict(kind="fn", name=fnname, file=src.rel, lines=[l0, line_of(src.text, e - 1)], sha=sha,
-                                   tags=tags, stub=bool(stub and body is not None), nodec=nodec,
-                                   gen_start=gen_start, gen_end=len(self.out.lines),
-                                   has_contract=any(t.strip() for _, t in contract)))
+
+        return contract, loops, injects, rewrites
 
     def _locate_fn(self, rel, name, in_re=None):
         src = Source.get(rel)
@@ -576,7 +582,7 @@ class Gen:
         rel = os.path.join(self.root, toks[0])
         name = toks[1]
         opts = dict(t.split("=", 1) for t in toks[2:] if "=" in t)
-        src, (b, ob, e) = self._locate_fn(rel, name)
+        src, (b, ob, e) = self._locate_fn(rel, name, rx(opts["in"]) if "in" in opts else None)
         body = src.text[ob + 1:e - 1]
         mask = src.mask[ob + 1:e - 1]
         m0 = re.search(rx(opts["from"]), mask, re.M)
@@ -596,25 +602,35 @@ class Gen:
             proof_lines = block[k + 1:]
             block = block[:k]
             check_ghost_only(proof_lines, rel_tpl)
-        header = [tx for (_, tx) in block]
+        contract, loops, injects, rewrites = self._parse_block(block, rel_tpl)
+        header = [tx for (_, tx) in contract]
         sig_name = re.search(r"fn\s+(\w+)", "\n".join(header)).group(1)
         tags = list(self.tags)
         gen_start = len(self.out.lines) + 1
-        for (tl, tx) in block:
+        for (tl, tx) in contract:
             self.out.emit(tx, ("tpl", rel_tpl, tl), self._clause_tags(tx, tags), sig_name)
-        self.out.emit("{", None, tags, sig_name)
         ret = opts.get("ret")  # ret=<expr without spaces>: the segment reads only its parameters and yields this expression (no threaded variable)
-        if not ret:
-            self.out.emit(f"    let mut {var} = {var}_in;", None, tags, sig_name)
-        for (tl, tx) in proof_lines:
-            self.out.emit(tx, ("tpl", rel_tpl, tl), tags, sig_name)
         base_line = line_of(src.text, ob + 1 + s0)
-        self.out.emit(seg.rstrip("\n"), ("repo", src.rel, base_line), tags, sig_name)
-        if ret:
-            self.out.emit(f"    {ret}", None, tags, sig_name)
-        elif not to_end:
-            self.out.emit(f"    {var}", None, tags, sig_name)
-        self.out.emit("}", None, tags, sig_name)
+        if loops or injects or rewrites:
+            # a segment with loops / ghost injections / logged rewrites goes through the same body assembler as a whole function
+            tail = f"    {ret}\n" if ret else ("" if to_end else f"    {var}\n")
+            head = "" if (ret and "var" not in opts) else f"    let mut {var} = {var}_in;\n"
+            if proof_lines:
+                head += "\n".join(tx for (_, tx) in proof_lines) + "\n"
+            wrapped = "{\n" + head + seg.rstrip("\n") + "\n" + tail + "}"
+            self._emit_body(src, ob + 1 + s0, wrapped, code_mask(wrapped), loops, injects, rewrites, rel_tpl, tags, sig_name, rel, name + "::" + sig_name)
+        else:
+            self.out.emit("{", None, tags, sig_name)
+            if not ret or "var" in opts:
+                self.out.emit(f"    let mut {var} = {var}_in;", None, tags, sig_name)
+            for (tl, tx) in proof_lines:
+                self.out.emit(tx, ("tpl", rel_tpl, tl), tags, sig_name)
+            self.out.emit(seg.rstrip("\n"), ("repo", src.rel, base_line), tags, sig_name)
+            if ret:
+                self.out.emit(f"    {ret}", None, tags, sig_name)
+            elif not to_end:
+                self.out.emit(f"    {var}", None, tags, sig_name)
+            self.out.emit("}", None, tags, sig_name)
         self.segments = getattr(self, "segments", {})
         self.segments.setdefault((rel, name), []).append((s0, s1, sig_name))
         self.functions.append(dict(kind="fn", name=sig_name, file=src.rel, lines=[base_line, base_line + seg.count("\n")],
